@@ -27,8 +27,20 @@ def main():
             rc = mod.run(a.tier, seed)
     except Exception:
         traceback.print_exc()
-        print('MACHINERY-FAILURE property=%s' % pid)
-        rc = 2
+        from . import core
+        chk = core.LAST_CHECK
+        if chk is not None and chk.violations:
+            # the implementation already diverged; a later stage tripping over the broken tree does not
+            # turn the verdict into a machinery failure
+            try:
+                chk.states = max(chk.states, 1)
+                chk.transitions = max(chk.transitions, 1)
+                rc = chk.finish(rule='aborted after %d violation(s): a later stage raised' % len(chk.violations))
+            except Exception:
+                rc = 1
+        else:
+            print('MACHINERY-FAILURE property=%s' % pid)
+            rc = 2
     sys.stdout.flush()
     os._exit(rc)
 
